@@ -7,6 +7,7 @@ import "strings"
 type Prop struct {
 	ID         string
 	Rules      []string // rule selectors: "RULE" or "RULE@substr1|substr2" (constructs containing one of the substrings)
+	Uses       []string // selectors inherited from the layers the property's operations are built on (obligations count; their controls are run by the owning property)
 	Decided    string   // clauses decided (goes to coverage.explanation)
 	NotDecided string   // what the check does not decide
 	Assume     []string // assumptions / trusted base
@@ -49,9 +50,69 @@ func p(id string, rules []string, decided []string, notDecided, technique string
 	All[id] = &Prop{ID: id, Rules: rules, Decided: strings.Join(decided, " "), NotDecided: notDecided, Assume: a, Technique: technique}
 }
 
+// AllRules: the property's own selectors followed by the inherited ones it does not already list.
+func (p *Prop) AllRules() []string {
+	out := append([]string{}, p.Rules...)
+	own := map[string]bool{}
+	for _, r := range p.Rules {
+		own[r] = true
+		if i := strings.Index(r, "@"); i < 0 {
+			own[r+"@*"] = true // the whole rule is already there
+		}
+	}
+	for _, u := range p.Uses {
+		n := u
+		if i := strings.Index(u, "@"); i >= 0 {
+			n = u[:i]
+		}
+		if own[u] || own[n+"@*"] {
+			continue
+		}
+		own[u] = true
+		out = append(out, u)
+	}
+	return out
+}
+
+// The layers every value-producing operation is built on. A property whose operations pass
+// through a layer inherits the layer's structural clauses: they are necessary conditions of the
+// property too (a rounding that misplaces the carry word breaks parsing, Sqrt and the Context
+// operations just as it breaks Add).
+var (
+	layerRound = []string{"T-ROUND", "T-SETEXP", "ROUNDSHAPE", "STICKY", "ENUM"}
+	layerUops  = []string{"NORM@uadd|usub|umul|uquo|round|setExpAndRound", "MUSTUSE", "SHIFTDIR", "QUOLEN", "LOWCUT", "ROUNDONCE@umul|uquo|uadd|usub", "FX-OWN@uadd|usub|umul|uquo", "CMPSYM@ucmp", "EXP@uadd|usub|umul|uquo|setExpAndRound|round|limitExp", "MUSTFLOW", "SIGN@uadd|usub|umul|uquo"}
+	layerDec   = []string{"WORD", "CARRY", "ALIASGUARD", "OVERLAP", "POOL", "INIT", "NORMARG", "DECNORM", "FILL"}
+	layerArith = []string{"T-ARITH@Add(|Sub(|Mul(|Quo(", "PREC0@Add|Sub|Mul|Quo|Set", "ROUNDONCE@Add|Sub|Mul|Quo|Set", "T-UNARY@Set(|SetPrec("}
+)
+
+func uses(id string, layers ...[]string) {
+	p := All[id]
+	for _, l := range layers {
+		p.Uses = append(p.Uses, l...)
+	}
+}
+
 func init() {
+	initProps()
+	uses("C01", layerDec, []string{"FX-OWN@uadd|usub|umul|uquo"})
+	uses("C02", layerRound, layerUops, layerDec)
+	uses("C03", layerRound, layerUops, layerDec)
+	uses("C05", layerRound, layerUops, layerDec, layerArith)
+	uses("C08", layerRound, []string{"T-ARITH", "T-UNARY", "T-CONV", "FX-DEF"})
+	uses("C10", []string{"FX-ACC", "FX-DEF", "NORM"})
+	uses("C11", layerRound, []string{"SCANSHAPE", "DECNORM@dec.scan|mulAddWW|setWord", "NORM@scan", "T-UNARY@Set(|SetPrec(", "LOWCUT"})
+	uses("C12", layerRound, layerUops, layerDec, []string{"NORM@scan"})
+	uses("C13", layerRound, []string{"T-UNARY@Set(|SetPrec(", "NORM@Set", "ROUNDONCE@Set"})
+	uses("C14", layerRound, layerUops, layerDec)
+	uses("C15", layerRound, layerUops, layerDec, layerArith)
+	uses("C16", []string{"NORM", "DECNORM", "ROUNDSHAPE", "FX-IMMUT"})
+	uses("C19", layerRound, layerUops, layerDec, layerArith, []string{"T-ARITH", "T-UNARY@Sqrt(", "FX-STICKY@(*Decimal).Sqrt|sqrtInverse", "MODE@Sqrt", "SQRTSHAPE"})
+	uses("C20", layerRound, []string{"NORM@round|setExpAndRound"})
+}
+
+func initProps() {
 	p("C01",
-		[]string{"T-ROUND", "T-SETEXP", "T-ARITH@Add(|Sub(|Mul(|Quo(", "T-UNARY@Set(|SetPrec(|Neg(|Abs(", "SIGN", "EXP", "WORD", "CARRY", "MUSTFLOW", "NORM", "PREC0@Add|Sub|Mul|Quo|Set|Neg|Abs|SetPrec", "LOWCUT", "SHIFTDIR", "QUOLEN", "ROUNDSHAPE", "ROUNDONCE@Add|Sub|Mul|Quo|Set|Neg|Abs|umul|uquo|uadd|usub", "STICKY", "MUSTUSE"},
+		[]string{"T-ROUND", "T-SETEXP", "T-ARITH@Add(|Sub(|Mul(|Quo(", "T-UNARY@Set(|SetPrec(|Neg(|Abs(", "SIGN", "EXP", "WORD", "CARRY", "MUSTFLOW", "NORM", "PREC0@Add|Sub|Mul|Quo|Set|Neg|Abs|SetPrec", "LOWCUT", "SHIFTDIR", "QUOLEN", "ROUNDSHAPE", "ROUNDONCE@Add|Sub|Mul|Quo|Set|Neg|Abs|umul|uquo|uadd|usub", "STICKY", "MUSTUSE", "CMPSYM@ucmp"},
 		[]string{
 			"T-ROUND: the rounding decision of round() equals the IEEE 754 direction table for all 6 modes x 2 signs x 10 rounding digits x sticky (argument or mantissa) x parity, with the all-nines carry stepping the exponent or overflowing to Inf.",
 			"T-SETEXP: exponent underflow -> zero and overflow -> Inf of the result's sign before rounding; the caller's sticky bit is handed to round.",
@@ -60,6 +121,7 @@ func init() {
 			"SIGN: no store to the sign after a call that may round the same object (except Neg/Abs, documented, which nothing in the package builds on, and the exact-zero fix-up); EXP: no wide integer becomes the int32 exponent outside a [MinExp, MaxExp] test, exp+1 is guarded, the int64 exponent sum cannot wrap; WORD: only kernel results and reduced values enter a mantissa (in particular in the division add-back that feeds the sticky bit); CARRY: the all-nines carry of round and the top carry of dec.add are consumed; MUSTFLOW: the dnorm shift reaches the exponent and the division remainder reaches the sticky bit; NORM: every computed mantissa is normalised, then rounded, before a success exit.",
 			"LOWCUT: no low-order words of a mantissa are sliced away before rounding unless sticky(words*_DW) of exactly those words reaches the rounding (a shortened dividend or truncated operand loses digits the rounding must see); SHIFTDIR: in uadd/usub the alignment shift count is a difference proven positive by the enclosing comparison, and the operand shifted left is the one with the larger exponent.",
 			"QUOLEN: the number of quotient words uquo asks for, a pure integer function n(prec), satisfies n(prec)*_DW > prec for every precision (room for the rounding digit) — decided by evaluating the closed formula over two periods of the word size and the top of the range; ROUNDSHAPE: every finite exit of round after a cut/increment passes the store that clears the digits below the precision; ROUNDONCE: no path of Add/Sub/Mul/Quo/Set/Neg/Abs and the unsigned helpers applies two rounding operations to the receiver.",
+			"CMPSYM for ucmp: the magnitude comparison that orders the operands of a subtraction is symmetric (a<b -> -1 with a>b -> +1, a non-zero word only x has -> +1, only y has -> -1, 0 only when both mantissas are exhausted).",
 			"STICKY: dec.sticky answers 0 only behind the scan of all lower words (or for an empty operand / a zero digit count); MUSTUSE: every exit of uadd/usub/umul/uquo follows a dec-layer operation on the mantissas of both operands (no `the other operand is negligible` shortcut); ROUNDSHAPE/carry-word: after the all-nines carry the word written is the top word of the cut mantissa.",
 		},
 		"that alignment shifts, digit positions, products and quotients are the right numbers (numeric core, not applicable to static analysis)",
@@ -88,13 +150,14 @@ func init() {
 		"the numeric result for finite operands; whether an intermediate product outside the exponent range is handled exactly",
 		techCDAI, cdaiAssume, fxAssume)
 	p("C04",
-		[]string{"T-ARITH", "T-UNARY@Sqrt(", "T-CONV@SetFloat", "PREC0", "FX-RBW", "PANIC", "ENUM", "GUARD", "WORD@divBasic|divLarge|divRecursiveStep|dec.sub|dec.add", "FX-DEF"},
+		[]string{"T-ARITH", "T-UNARY@Sqrt(", "T-CONV@SetFloat", "PREC0", "FX-RBW", "PANIC", "ENUM", "GUARD", "WORD@divBasic|divLarge|divRecursiveStep|dec.sub|dec.add", "FX-DEF", "CMPSYM@ucmp"},
 		[]string{
 			"T-ARITH: every class combination of Add/Sub/Mul/Quo/FMA in every mode gives the IEEE form and sign or panics with ErrNaN, and nothing else panics with ErrNaN.",
 			"T-UNARY: Sqrt special values (sqrt(±0)=±0, sqrt(+Inf)=+Inf, negative -> ErrNaN); T-CONV: SetFloat64(NaN) -> ErrNaN, no other class panics.",
 			"PREC0: no exported operation can reach round with an unexamined (possibly zero) precision (index out of range in round); FX-RBW: no setter dispatches on the receiver's previous form.",
 			"PANIC: census of all reachable panic sites: ErrNaN only in the seven documented operations, re-panics in package context, `unreachable` only behind switches that handle every enumerator (ENUM: form, mode and acc only ever receive declared enumerators), the rest tabled by (function, message) with its discharge argument — a new site fails; GUARD: every usub is dominated by a ucmp edge implying |a| >= |b| (dec.sub's underflow panic stays dead); WORD rules out the known cause of panic(\"impossible\").",
 			"FX-DEF: every value-defining operation leaves form and sign defined by the call on every normal return (no stale sign on a zero result, no stale form after an early exit).",
+			"CMPSYM for ucmp: the magnitude comparison that lets Add/Sub of opposite-signed operands recognise the exactly zero sum answers 0 only when both mantissas are exhausted, -1/+1 symmetrically, and a non-zero word that only x (only y) has decides +1 (-1).",
 		},
 		"absence of run-time panics (index, nil) in the numeric code paths in general; the cell (+0)+(-0) under ToNegativeInf is left unconstrained (the code follows math/big, see DESIGN §5 F15)",
 		techCDAI, cdaiAssume, fxAssume)
@@ -109,12 +172,13 @@ func init() {
 		"that prec+2 working digits and the final multiplication give the correctly rounded root (numeric, not applicable)",
 		techCDAI, cdaiAssume, fxAssume)
 	p("C06",
-		[]string{"WORD", "CARRY", "ALIASGUARD", "OVERLAP", "POOL", "INIT", "NORMARG", "FX-GLOBAL@Threshold|decLeafSize|decPool", "CONST@threshold", "FX-IMMUT@dec.|decBasic|decKaratsuba|decAddAt", "DECNORM"},
+		[]string{"WORD", "CARRY", "ALIASGUARD", "OVERLAP", "POOL", "INIT", "NORMARG", "FX-GLOBAL@Threshold|decLeafSize|decPool", "CONST@threshold", "FX-IMMUT@dec.|decBasic|decKaratsuba|decAddAt", "DECNORM", "FILL"},
 		[]string{
 			"WORD: every value stored into a mantissa word and every scalar word handed to a decimal kernel in mul/sqr/div and their helpers is a kernel result, a reduced value, a loaded word or a constant below the base (exceptions tabled with a count); CARRY: every carry/borrow/remainder is consumed except at tabled sites (one more discard fails).",
 			"ALIASGUARD/OVERLAP: result buffers are not reused while they overlap an operand; in-place kernel uses have matching offsets; POOL: scratch buffers are owned exclusively between getDec and putDec; INIT: accumulating routines start from cleared or fully produced buffers (any-range); NORMARG: dec.cmp only sees normalised operands.",
 			"FX-GLOBAL/CONST: the tuning thresholds are written by nobody outside test code and are initialised to constants >= 2; FX-IMMUT: the dec-layer routines never write a source slice.",
 			"DECNORM: every dec-layer function returns a normalised value (norm(), another such function's result, v[:0] or its own parameter) — callers compare lengths and index the top word.",
+			"FILL: element-by-element definitions of a destination cover every index (no data-dependent early exit that leaves old words in place).",
 		},
 		"that Karatsuba, schoolbook and recursive code compute the same product/quotient (arithmetic), buffer-length contracts (len(z) >= 6n), the partial clear in mul, the numeric `impossible` guards: NOT APPLICABLE to static analysis",
 		"provenance dataflow on stored words, use-def of kernel results, dominance of alias guards and initialisers, slice-root analysis", fxAssume)
@@ -147,21 +211,23 @@ func init() {
 		"the parse path's default of 34 is checked only as 'assigned on every success exit'",
 		techFX+"; plus E4 tables", cdaiAssume, fxAssume)
 	p("C10",
-		[]string{"T-ARITH-ALIAS", "FX-RBW", "FX-RAW", "FX-OWN", "ALIASGUARD", "OVERLAP", "INIT"},
+		[]string{"T-ARITH-ALIAS", "FX-RBW", "FX-RAW", "FX-OWN", "ALIASGUARD", "OVERLAP", "INIT", "FILL"},
 		[]string{
 			"T-ARITH-ALIAS: the dispatch tables of Add/Sub/Mul/Quo/FMA hold under every binding of the receiver to an operand and of operands to each other, with the receiver's previous form, sign and accuracy unknown.",
 			"FX-RBW: no result-defining operation reads the form, sign, accuracy, exponent, mantissa words or mantissa length its receiver held on entry (no read, no dependence).",
 			"FX-RAW: for every (result, operand) pair of every function, no operand field is read after the same field of the result was written unless distinctness was established; FX-OWN: every Decimal owns its mantissa array.",
 			"ALIASGUARD: mul, sqr and divLarge test alias(result, source) and drop their buffer before letting a non-elementwise routine write into it; OVERLAP: kernels used in place get destination and source at the same offset, dec methods called in place are the in-place-safe ones; INIT: accumulating routines never see stale words of a reused buffer (any-range).",
+			"FILL: a loop that defines a reused destination buffer word by word (for i < len(z) { z[i] = ... }) stores on every iteration and has no data-dependent exit unless the rest is cleared or copied: no stale word of the receiver's previous mantissa survives into the result.",
 		},
 		"stale words in a reused mantissa buffer (dec.make does not clear) beyond the INIT rule",
 		techFX+"; plus E4 tables under aliasing", cdaiAssume, fxAssume)
 	p("C11",
-		[]string{"FMTSHAPE@MarshalText|shortest|infinity|exponent-marker", "FX-IMMUT@(*Decimal).Append|(*Decimal).Text|(*Decimal).String|(*Decimal).Format|(*Decimal).fmt|(*Decimal).toa|(*Decimal).MarshalText|(*Decimal).bufSizeForFmt", "CONST@pow10tab|decMaxPow", "EXP", "SCANSHAPE@exp-bits|exponent-consumed"},
+		[]string{"FMTSHAPE@MarshalText|shortest|infinity|exponent-marker", "FX-IMMUT@(*Decimal).Append|(*Decimal).Text|(*Decimal).String|(*Decimal).Format|(*Decimal).fmt|(*Decimal).toa|(*Decimal).MarshalText|(*Decimal).bufSizeForFmt", "CONST@pow10tab|decMaxPow", "EXP", "SCANSHAPE@exp-bits|exponent-consumed", "STALE@toa|exp10|Append|Text|bufSizeForFmt|fmt"},
 		[]string{
 			"FMTSHAPE: MarshalText (hence JSON) calls Append with a constant negative precision in a format Parse reads; on the negative-precision path Append makes no rounding copy; the infinity spelling Append writes is one Parse compares against and the exponent markers of the b and p formats are among those scanExponent accepts.",
 			"EXP(ii)/(iv): no int32 arithmetic on the exponent in the writers; SCANSHAPE/exp-bits: the reader parses the exponent field as a signed 64-bit integer — fmtE writes x.exp-1 and fmtB x.exp-prec, which fall below MinInt32 for values near MinExp, so a narrower parse cannot read back what the writer produced.",
 			"FX-IMMUT: no formatter writes its operand; CONST: pow10tab and decMaxPow (digit grouping used by both the writer and the reader) equal their mathematical definition.",
+			"STALE: the formatting code reads x.exp and x.mant only where x is known finite (or through helpers called with a finite receiver): the text of a zero or an infinity cannot contain digits or an exponent left over from an earlier value of the variable.",
 		},
 		"round-trip equality of digits and exponent: NOT APPLICABLE to static analysis (digit placement in fmtE/fmtF/itoa and digit accumulation in scan are loop arithmetic over run-time values); this check is a thin necessary-condition claim only",
 		"shape rules over the SSA form of the writers and the reader (constants written vs constants compared), write-set analysis, table evaluation", fxAssume)
@@ -177,15 +243,16 @@ func init() {
 		"rounding of long literals, accuracy of the binary-exponent path (pow2), and agreement of the accepted language with math/big (would need the upstream source as a frozen reference); the separator automata of dec.scan/scanExponent",
 		"nil-ness facts from dominating branch edges on the SSA form, per return and φ edge; use-def checks on error results; shape rules on the radix switch", fxAssume)
 	p("C13",
-		[]string{"FMTSHAPE@Append|Format", "FX-IMMUT@(*Decimal).Append|(*Decimal).Text|(*Decimal).String|(*Decimal).Format|(*Decimal).fmt|(*Decimal).toa", "LOWCUT"},
+		[]string{"FMTSHAPE@Append|Format", "FX-IMMUT@(*Decimal).Append|(*Decimal).Text|(*Decimal).String|(*Decimal).Format|(*Decimal).fmt|(*Decimal).toa", "LOWCUT", "STALE@toa|exp10|Append|Text|bufSizeForFmt|fmt"},
 		[]string{
 			"FMTSHAPE: with an explicit precision Append rounds a fresh copy (never x) that was given x's rounding mode; the precision it requests must be provably non-zero (0 means `keep the operand's precision`, i.e. no rounding) — this obligation FAILS on the pinned tree and is the known finding F12; Format has a case for every documented verb (e E f F g G b p v s) and consults the flags + space 0 - and width/precision.",
 			"FX-IMMUT: formatting never writes its operand.",
+			"STALE: every read of x.exp / x.mant in the formatting path is behind a finiteness test (the exponent thresholds of %g/%f applied to a zero use 0, not the exponent of whatever finite value the variable held before, DESIGN §5 F20).",
 		},
 		"digit counts, %g exponent thresholds, padding and layout: NOT APPLICABLE to static analysis (arithmetic on run-time lengths); thin necessary-condition claim only",
 		"shape rules on the SSA form of Append/Format (receiver chain of the rounding copy, dominance of the precision test, lower-bound reasoning on the requested precision)", fxAssume)
 	p("C14",
-		[]string{"T-CONV@Int64(|Uint64(|Int(|Rat(", "T-UNARY@SetInt|SetUint64(|NewDecimal(|MinPrec(|IsInt(", "FX-STICKY@SetInt|SetUint64|SetRat|setBits64", "PREC0@SetInt|SetUint64|SetRat|setBits64|NewDecimal", "EXP@setBits64|SetInt|limitExp", "NORM@setBits64|SetInt", "MUSTFLOW@setBits64|SetInt", "SIGN@SetInt|setBits64", "OUTPARAM@Int/|Rat/", "NATLEN", "ROUNDONCE@SetRat|SetInt|setBits64", "FX-DEF@SetInt|SetUint64|SetRat|setBits64"},
+		[]string{"T-CONV@Int64(|Uint64(|Int(|Rat(", "T-UNARY@SetInt|SetUint64(|NewDecimal(|MinPrec(|IsInt(", "FX-STICKY@SetInt|SetUint64|SetRat|setBits64", "PREC0@SetInt|SetUint64|SetRat|setBits64|NewDecimal", "EXP@setBits64|SetInt|limitExp", "NORM@setBits64|SetInt", "MUSTFLOW@setBits64|SetInt", "SIGN@SetInt|setBits64", "OUTPARAM@Int/|Rat/", "NATLEN", "ROUNDONCE@SetRat|SetInt|setBits64", "FX-DEF@SetInt|SetUint64|SetRat|setBits64", "STALE@Int|Uint64|Rat|intMant", "FILL@setNat|setUint64"},
 		[]string{
 			"T-CONV: Int64/Uint64/Int/Rat for ±0, ±Inf and finite values by exponent class give the documented saturation values and accuracies.",
 			"T-UNARY: SetInt/SetInt64/SetUint64/NewDecimal set the sign before rounding, +0 for a zero argument, keep a non-zero precision and choose the documented default otherwise; MinPrec/IsInt special cases.",
@@ -193,36 +260,41 @@ func init() {
 			"EXP(iii): NewDecimal's caller-supplied exponent is clamped before it enters the int64 sum (saturation to ±0/±Inf instead of wrap-around); NORM/MUSTFLOW/SIGN for the integer setters.",
 			"EXP(iv): the clamp of limitExp lies in [2^34, 2^62] (wide enough that clamped offsets stay out of range, narrow enough that the int64 sum cannot wrap). OUTPARAM: a caller-supplied *big.Int / *big.Rat is completely redefined on every exit of Int and Rat that returns it (for Rat: the denominator is written, not only the numerator).",
 			"NATLEN: the number of binary words decToNat allocates, a pure function w(d) of the digit count, satisfies w(d)*_W >= bitlen(10^d-1) — decided by evaluating the formula for d = 1..4000 and three larger values against exact powers of ten (Int and Rat would otherwise drop the top word silently); ROUNDONCE: SetRat converts numerator and denominator exactly (into temporaries) and rounds once in Quo.",
+			"STALE: Int, Int64, Uint64, Rat, IsInt read the exponent and mantissa only for a finite x (a zero's or infinity's leftover fields never reach the result).",
+			"FILL: setNat/setUint64 (SetInt, SetUint64, SetRat) write every word of the reused mantissa buffer.",
 		},
 		"exactness of the radix conversions and of SetInt's precision estimate (numeric)",
 		techCDAI, cdaiAssume, fxAssume)
 	p("C15",
-		[]string{"T-CONV@SetFloat", "FX-RBW@SetFloat", "FX-STICKY@SetFloat", "OUTPARAM@Float/", "PRECWRAP@SetFloat", "NATLEN"},
+		[]string{"T-CONV@SetFloat", "FX-RBW@SetFloat", "FX-STICKY@SetFloat", "OUTPARAM@Float/", "PRECWRAP@SetFloat", "NATLEN", "STALE@Float"},
 		[]string{
 			"T-CONV: SetFloat64 and SetFloat dispatch on the ARGUMENT's class: NaN -> ErrNaN, ±0 and ±Inf map to themselves with the argument's sign and Exact accuracy, a finite value enters the scaling arithmetic with the argument's sign and is rounded last with the receiver's precision.",
 			"FX-RBW: neither reads the receiver's previous form/sign; FX-STICKY: the temporary precision increment is undone on every exit.",
 			"T-CONV (guard digit): the scaling Mul/Quo by 2**n runs at a precision strictly above the final one (otherwise the value is rounded twice). OUTPARAM: a caller-supplied *big.Float is completely redefined on every exit of Float that returns it. PRECWRAP: the temporary extra digit is taken only on a path where prec < MaxPrec holds (z.prec++ at MaxPrec wraps to 0: F18, fixed).",
 			"NATLEN: Float/Float64/Float32 go through decToNat: its word count formula leaves room for the largest integer of the operand's digit count.",
+			"STALE: Float reads x.exp / x.mant only under `case finite`.",
 		},
 		"nearest/faithful rounding of the conversions, double rounding in Float32/Float64 (numeric, not applicable)",
 		techCDAI, cdaiAssume, fxAssume)
 	p("C16",
-		[]string{"T-CMP", "FX-DEP", "CMPSYM"},
+		[]string{"T-CMP", "FX-DEP", "CMPSYM", "STALE@ucmp|Cmp"},
 		[]string{
 			"T-CMP: Cmp over all 36 class pairs x the three possible results of ucmp: classes ordered -Inf < -finite < ±0 < +finite < +Inf, equal-sign finite values compared by exactly one ucmp in the right operand order, independent of precision/mode/accuracy of the operands; Sign, IsZero, IsInf, Signbit agree with the classification.",
 			"FX-DEP: Cmp, ucmp, ord, Sign, Signbit, IsZero, IsInf write nothing and read no precision, mode or accuracy.",
-			"CMPSYM: inside Cmp, ucmp and dec.cmp every `a < b -> -1` has the sibling `a > b -> +1` over the same operands (no one-sided or non-strict comparison) and ucmp decides on the exponents before the mantissa words.",
+			"CMPSYM: inside Cmp, ucmp and dec.cmp every `a < b -> -1` has the sibling `a > b -> +1` over the same operands (no one-sided or non-strict comparison), ucmp decides on the exponents before the mantissa words, answers 0 only when both mantissas are exhausted, and a non-zero word that only one operand has decides +1 for x and -1 for y.",
+			"STALE: ucmp, which compares exponents and mantissa words without looking at the form, is called with finite receivers only (decided at the call sites in Add/Sub; for Cmp by T-CMP).",
 		},
 		"that ucmp's zero-padding loop compares the right words (loop arithmetic)",
 		techCDAI, cdaiAssume, fxAssume)
 	p("C17",
-		[]string{"GOB", "FX-OWN@GobDecode", "MODE@GobDecode", "LOWCUT@GobEncode", "PRECWRAP@GobEncode"},
+		[]string{"GOB", "FX-OWN@GobDecode", "MODE@GobDecode", "LOWCUT@GobEncode", "PRECWRAP@GobEncode", "STALE@GobEncode"},
 		[]string{
 			"GOB G1: every buf[k], buf[k:] and fixed-width read in GobDecode is dominated by a comparison establishing len(buf) >= what it needs (no panic on truncated input).",
 			"G2: the decoded mode, accuracy and form are compared with the largest enumerator before being stored; the decoded mantissa is rejected unless non-empty, normalised (top word >= base/10), every word < base (a test inside a loop over the mantissa whose header dominates the store) and its digit count fits the decoded precision (so finite implies precision > 0); it is decoded into a fresh buffer.",
 			"G3: GobEncode and GobDecode agree on (shift, mask, bias) of every header field and on the byte offsets of prec, exp and mantissa.",
 			"G4: a receiver whose precision was not 0 gets its precision and mode back (every success exit passes the restoring block, which calls SetPrec(oldPrec), i.e. rounds); G5: the version is tested before anything is decoded.",
 			"MODE: in GobDecode the receiver's own rounding mode is back in force before SetPrec rounds the decoded value into the receiver's precision (a mode written after the rounding call means the sender's mode did the rounding); LOWCUT: GobEncode encodes the top (most significant) words of the mantissa, never a prefix m[:n]. PRECWRAP: the number of words to encode is not computed in uint32 from the precision (it wrapped to 0 near MaxPrec: F17, fixed).",
+			"STALE: GobEncode reads exponent and mantissa of a finite x only, so the encoding of a zero or infinity does not depend on earlier contents.",
 		},
 		"value equality after a round trip (word order inside dec.bytes/setBytes is loop arithmetic)",
 		"dominance/interval analysis on the SSA form of GobDecode plus sibling agreement with GobEncode", fxAssume)
@@ -245,12 +317,13 @@ func init() {
 		"exclusive ownership of pooled scratch buffers between getDec and putDec (POOL rule) and the store targets of the assembly kernels (E7) where not yet listed; equality of concurrent and sequential results beyond 'no shared write'",
 		techFX, fxAssume)
 	p("C20",
-		[]string{"T-UNARY@MantExp(|SetMantExp(", "PREC0@SetBitsExp|SetMantExp|MantExp", "FX-RBW@SetBitsExp|SetMantExp", "FX-RAW@MantExp|SetMantExp", "FX-OWN@BitsExp|SetBitsExp|MantExp|SetMantExp|Copy", "FX-STICKY@SetBitsExp", "EXP@SetBitsExp|SetMantExp|limitExp", "NORM@SetBitsExp", "MUSTFLOW@SetBitsExp", "SIGN@SetBitsExp", "LOWCUT", "FX-DEF@SetBitsExp|SetMantExp"},
+		[]string{"T-UNARY@MantExp(|SetMantExp(", "PREC0@SetBitsExp|SetMantExp|MantExp", "FX-RBW@SetBitsExp|SetMantExp", "FX-RAW@MantExp|SetMantExp", "FX-OWN@BitsExp|SetBitsExp|MantExp|SetMantExp|Copy", "FX-STICKY@SetBitsExp", "EXP@SetBitsExp|SetMantExp|limitExp", "NORM@SetBitsExp", "MUSTFLOW@SetBitsExp", "SIGN@SetBitsExp", "LOWCUT", "FX-DEF@SetBitsExp|SetMantExp", "STALE@MantExp|BitsExp|MinPrec"},
 		[]string{
 			"T-UNARY: MantExp returns 0 and copies form/sign for ±0/±Inf, returns x's exponent and leaves mant with exponent 0 otherwise (also for mant nil and mant = x); SetMantExp copies zeros/infinities without scaling and enters setExpAndRound with exponent(mant)+exp and the sign already set, also for z = mant.",
 			"PREC0: SetBitsExp/SetMantExp never round with precision 0; FX-RBW: nothing of the old receiver is read; FX-RAW: MantExp(x == mant) and SetMantExp(z == mant) have no read-after-write hazard; FX-OWN: the only functions that share a mantissa array with the caller are SetBitsExp and BitsExp (documented).",
 			"EXP(iii)/(iv): the int64 exponent arithmetic of SetBitsExp/SetMantExp cannot wrap before the range check (caller's term clamped, with a clamp in [2^34, 2^62] so that offsets that cancel against the other summand still give the right in-range result); NORM + MUSTFLOW: SetBitsExp strips zero words, normalises, and both corrections reach the exponent.",
 			"FX-DEF: SetBitsExp/SetMantExp define form and sign on every return (an all-zero slice gives +0 whatever sign the receiver had).",
+			"STALE: MantExp and MinPrec read exponent/mantissa only for a finite x; BitsExp hands the raw fields out as documented (tabled).",
 		},
 		"the exponent-correction arithmetic of SetBitsExp/BitsExp (numeric)",
 		techCDAI, cdaiAssume, fxAssume)
